@@ -228,8 +228,9 @@ Section Syncer.
   Definition pevs_at (v : view) (n : Z) : list pev :=
     match block_at v n with Some b => block_pevs n b | None => [] end.
 
-  Definition zrange (s e : Z) : list Z :=
-    map (fun i => s + Z.of_nat i) (seq 0 (Z.to_nat (e - s + 1))).
+  Fixpoint zrange_n (s : Z) (n : nat) : list Z :=
+    match n with O => [] | S n' => s :: zrange_n (s + 1) n' end.
+  Definition zrange (s e : Z) : list Z := zrange_n s (Z.to_nat (e - s + 1)).   (* s, s+1, ..., e *)
 
   Definition logs_of (v : view) (s e : Z) : list pev := flat_map (pevs_at v) (zrange s e).
 
@@ -249,6 +250,84 @@ Section Syncer.
   Definition rows_of (v : view) (a k : Z) : list pev :=
     filter (fun p => admissible (pe_ev p)) (logs_of v a k).
 
+  (* ----------------------------------------------------------------------------------- *)
+  (* vocabulary of the C15 theorems *)
+
+  (* two views have the same blocks 0..k *)
+  Definition agree_upto (v w : view) (k : Z) : Prop :=
+    forall n, 0 <= n <= k -> block_at v n = block_at w n.
+
+  (* A block hash identifies the block and all its ancestors (the header hash covers the parent
+     hash and, through the receipts root, the logs) ... *)
+  Definition hash_determines (v w : view) : Prop :=
+    forall n bv bw, block_at v n = Some bv -> block_at w n = Some bw ->
+                    bk_hash bv = bk_hash bw -> agree_upto v w n.
+  (* ... and is never the empty byte string (which a rollback writes as the status hash) *)
+  Definition hashes_nonempty (v : view) : Prop := forall b, In b v -> bk_hash b <> [].
+
+  (* contract invariant: on one branch a key is registered at most once *)
+  Definition keys_unique (v : view) : Prop :=
+    NoDup (map (fun p => key (pe_ev p)) (rows_of v 0 (head_number v))).
+
+  (* no admissible event in a block below a (the exclusion of D9) *)
+  Definition quiet_before (v : view) (a : Z) : Prop := rows_of v 0 (a - 1) = [].
+
+  (* the start of the next range *)
+  Definition next_start (fl : flavour) (st : state) : Z :=
+    match st_status st with None => fl_first_start fl | Some (k, _) => k + 1 end.
+
+  (* a history: each Sync call sees a view (the node's canonical branch, whose last block is the
+     header passed to Sync) and two fault streams.  The ghost component remembers the view of
+     the last Sync that wrote to the database. *)
+  Record gstate := mkg { g_st : state; g_view : view }.
+  Definition sync_input : Type := view * (list fault * list fault).
+
+  Definition gstep (fl : flavour) (g : gstate) (inp : sync_input) : gstate :=
+    let '(st', _, tr) := sync fl (node_of_view (fst inp)) (g_st g) (fst (snd inp)) (snd (snd inp)) in
+    mkg st' (match tr with [] => g_view g | _ => fst inp end).
+
+  Definition ginit : gstate := mkg init_state [].
+  Definition grun (fl : flavour) (inputs : list sync_input) : gstate := fold_left (gstep fl) inputs ginit.
+
+  (* The property's assumption on the next observed head, relative to what is synced: the new
+     view agrees with the synced one on everything at least the assumed reorg depth below the
+     synced block (on everything up to the position itself while a rollback is being resynced),
+     and if it departs from the synced chain at or below the synced block then its head is at
+     most one past the synced block. *)
+  Definition head_ok (fl : flavour) (g : gstate) (v : view) : Prop :=
+    match st_status (g_st g) with
+    | None => True
+    | Some (k, h) =>
+        agree_upto (g_view g) v (match h with [] => k | _ => Z.max 0 (k - fl_depth fl) end) /\
+        (head_number v <= k + 1 \/ agree_upto (g_view g) v k)
+    end.
+
+  Fixpoint heads_ok (fl : flavour) (g : gstate) (inputs : list sync_input) : Prop :=
+    match inputs with
+    | [] => True
+    | inp :: rest => head_ok fl g (fst inp) /\ heads_ok fl (gstep fl g inp) rest
+    end.
+
+  Definition view_ok (fl : flavour) (v : view) : Prop :=
+    v <> [] /\ hashes_nonempty v /\ keys_unique v /\ head_number v + fl_range fl < 9223372036854775808.
+
+  Definition universe_ok (fl : flavour) (vs : list view) : Prop :=
+    (forall v, In v vs -> view_ok fl v) /\
+    (forall v w, In v vs -> In w vs -> hash_determines v w).
+
+  (* one database transition of a Sync: the commit of a range (status and exactly the admissible
+     events of that range, together) or a rollback (status and the deletions, together) *)
+  Definition justified (fl : flavour) (nd : node) (a b : state) : Prop :=
+    (exists s e h, n_hash nd e = Some h /\ b = commit_range nd a s e h /\
+                   (fl_swallow fl = false -> s = next_start fl a)) \/
+    (exists k h n, st_status a = Some (k, h) /\ 0 < n /\ b = rollback_to a (k - n)).
+
+  Fixpoint chain_justified (fl : flavour) (nd : node) (a : state) (tr : list state) : Prop :=
+    match tr with
+    | [] => True
+    | b :: rest => justified fl nd a b /\ chain_justified fl nd b rest
+    end.
+
 End Syncer.
 
 Arguments mkpev {E}.
@@ -260,6 +339,11 @@ Arguments upsert {E K}. Arguments num_reorged {E}. Arguments rollback_to {E}.
 Arguments reorg_phase {E}. Arguments commit_range {E K}. Arguments range_loop {E K}. Arguments sync {E K}.
 Arguments block_pevs {E}. Arguments block_at {E}. Arguments pevs_at {E}. Arguments logs_of {E}.
 Arguments hash_at {E}. Arguments head_number {E}. Arguments node_of_view {E}. Arguments rows_of {E}.
+Arguments agree_upto {E}. Arguments hash_determines {E}. Arguments hashes_nonempty {E}.
+Arguments keys_unique {E K}. Arguments quiet_before {E}. Arguments next_start {E}.
+Arguments mkg {E}. Arguments g_st {E}. Arguments g_view {E}. Arguments ginit {E}.
+Arguments gstep {E K}. Arguments grun {E K}. Arguments head_ok {E}. Arguments heads_ok {E K}.
+Arguments view_ok {E K}. Arguments universe_ok {E K}. Arguments justified {E K}. Arguments chain_justified {E K}.
 
 (* ------------------------------------------------------------------------------------- *)
 (* the three instances.  One payload record serves all three tables; unused fields are 0 / []. *)
